@@ -714,11 +714,11 @@ End Crash.
 (* hooks                                                               *)
 (* ------------------------------------------------------------------ *)
 
-Definition fails (h : hprog) : bool := match h_res h with HRet _ => false | _ => true end.
+Notation fails := fails_h (only parsing).     (* model/Wsgi.v *)
 (* how many hooks of a list (in call order) get called: up to and including the first failing one *)
 Fixpoint ran (hs : list hprog) : nat :=
   match hs with [] => 0 | h :: t => if fails h then 1 else S (ran t) end.
-Definition all_ok (hs : list hprog) : bool := forallb (fun h => negb (fails h)) hs.
+Notation all_ok := all_ret (only parsing).
 
 Lemma run_hooks_trace tag : forall idx hs st ev st' x,
   length idx = length hs ->
@@ -727,7 +727,7 @@ Lemma run_hooks_trace tag : forall idx hs st ev st' x,
 Proof.
   induction idx as [|i idx IH]; intros [|h hs] st ev st' x Hlen H; simpl in Hlen; try discriminate.
   - simpl in H. inversion H; subst. split; [reflexivity|]. split; reflexivity.
-  - cbn [combine run_hooks] in H. unfold run_prog in H. unfold all_ok, fails. cbn [ran forallb]. unfold fails.
+  - cbn [combine run_hooks] in H. unfold run_prog in H. unfold all_ret, fails_h. cbn [ran forallb]. unfold fails_h.
     destruct (h_res h) as [o|e r|j].
     + destruct (run_hooks tag (combine idx hs) (apply_muts (h_muts h) st)) as [[ev2 st2] x2] eqn:Hr.
       inversion H; subst. destruct (IH hs _ _ _ _ (eq_add_S _ _ Hlen) Hr) as [-> Hx].
@@ -749,6 +749,11 @@ Proof.
   cbn [length seq combine rev]. rewrite IH.
   rewrite combine_app' by (rewrite !rev_length, seq_length; reflexivity). reflexivity.
 Qed.
+
+Lemma map_fst_combine' {A B} (a : list A) (b : list B) : length a = length b -> map fst (combine a b) = a.
+Proof. revert b. induction a as [|x a IH]; intros [|y b] H; simpl in *; try discriminate; [reflexivity|]. f_equal. apply IH. now inversion H. Qed.
+Lemma map_snd_combine' {A B} (a : list A) (b : list B) : length a = length b -> map snd (combine a b) = b.
+Proof. revert b. induction a as [|x a IH]; intros [|y b] H; simpl in *; try discriminate; [reflexivity|]. f_equal. apply IH. now inversion H. Qed.
 
 Definition mid_event (e : event) : bool :=
   match e with EvRouteHook _ | EvHandler => true | _ => false end.
@@ -776,17 +781,34 @@ Proof.
       * rewrite count_app, Hn. unfold count; simpl; lia.
 Qed.
 
+Lemma run_hooks_trace_gen tag : forall l st ev st' x,
+  run_hooks tag l st = (ev, st', x) ->
+  ev = map tag (map fst (firstn (ran (map snd l)) l)) /\ (x = None <-> all_ret (map snd l) = true).
+Proof.
+  induction l as [|[i h] t IH]; intros st ev st' x H.
+  - simpl in H. inversion H; subst. split; [reflexivity|]. split; reflexivity.
+  - cbn [run_hooks] in H. unfold run_prog in H. unfold all_ret. cbn [map snd ran forallb]. unfold fails_h.
+    destruct (h_res h) as [o|e r|j].
+    + destruct (run_hooks tag t (apply_muts (h_muts h) st)) as [[ev2 st2] x2] eqn:Hr.
+      inversion H; subst. destruct (IH _ _ _ _ Hr) as [-> Hx].
+      split; [reflexivity|exact Hx].
+    + inversion H; subst. split; [reflexivity|]. split; discriminate.
+    + inversion H; subst. split; [reflexivity|]. split; discriminate.
+Qed.
+
 (* Before hooks: in registration order, once each, up to and including the first
    failing one, all before routing; routing and the handler only if none failed.
-   After hooks: in reverse registration order, once each, up to and including the
-   first failing one (all of them when none fails), after everything else —
-   whatever happened before (404, 405, a failing before hook, a crash). *)
+   After hooks: the after_request list as it is when its emit starts
+   ([after_call_list]: reverse registration order, minus / plus what hooks and the
+   handler removed / added before that moment), once each, up to and including the
+   first failing one, after everything else — whatever happened before (404, 405,
+   a failing before hook, a crash). *)
 Lemma hooks_lifecycle p :
   exists evM,
     fst (fst (handle p))
     = map EvHookB (firstn (ran (p_before p)) (seq 0 (length (p_before p))))
       ++ evM
-      ++ map EvHookA (firstn (ran (rev (p_after p))) (rev (seq 0 (length (p_after p)))))
+      ++ map EvHookA (map fst (firstn (ran (map snd (after_call_list p))) (after_call_list p)))
     /\ (all_ok (p_before p) = false -> evM = [])
     /\ (all_ok (p_before p) = true ->
          exists evR, evM = EvRouted :: evR /\ forallb mid_event evR = true /\ count is_handler evR <= 1).
@@ -795,14 +817,11 @@ Proof.
   destruct (run_hooks EvHookB (indexed (p_before p)) st_init) as [[evB st1] xB] eqn:HB.
   destruct (match xB with Some x => ([], st1, inr x) | None => route_and_call (p_routing p) st1 end)
     as [[evM st2] resM] eqn:HM.
-  destruct (run_hooks EvHookA (rev (indexed (p_after p))) st2) as [[evA st3] xA] eqn:HA.
+  destruct (run_hooks EvHookA (after_call_list p) st2) as [[evA st3] xA] eqn:HA.
   cbn [fst].
   unfold indexed in HB.
   destruct (run_hooks_trace EvHookB _ _ _ _ _ _ (seq_length _ _) HB) as [-> HxB].
-  rewrite rev_indexed in HA.
-  assert (Hlen : length (rev (seq 0 (length (p_after p)))) = length (rev (p_after p)))
-    by (rewrite !rev_length, seq_length; reflexivity).
-  destruct (run_hooks_trace EvHookA _ _ _ _ _ _ Hlen HA) as [-> _].
+  destruct (run_hooks_trace_gen EvHookA _ _ _ _ _ HA) as [-> _].
   exists evM. split; [reflexivity|]. split.
   - intros Hf. destruct xB as [x|]; [now inversion HM|].
     destruct HxB as [HxB _]. rewrite (HxB eq_refl) in Hf. discriminate.
@@ -811,9 +830,24 @@ Proof.
     + eapply route_and_call_shape; eassumption.
 Qed.
 
+(* when no hook or handler that runs edits the hook lists, that list is the reverse registration order *)
+Definition no_hook_edits (p : program) : Prop :=
+  edits_of (ran_prefix (p_before p) ++ (if all_ret (p_before p) then routing_progs (p_routing p) else [])) = [].
+
+Lemma after_call_list_plain p :
+  no_hook_edits p ->
+  map fst (after_call_list p) = rev (seq 0 (length (p_after p)))
+  /\ map snd (after_call_list p) = rev (p_after p).
+Proof.
+  intros H. unfold after_call_list. unfold no_hook_edits in H. rewrite H. cbn [fold_left].
+  rewrite rev_indexed. split.
+  - rewrite map_fst_combine'; [reflexivity|]. now rewrite !rev_length, seq_length.
+  - rewrite map_snd_combine'; [reflexivity|]. now rewrite !rev_length, seq_length.
+Qed.
+
 Lemma ran_all_ok hs : all_ok hs = true -> ran hs = length hs.
 Proof.
-  unfold all_ok. induction hs as [|h t IH]; simpl; [reflexivity|].
+  unfold all_ret. induction hs as [|h t IH]; simpl; [reflexivity|].
   destruct (fails h); simpl; [discriminate|]. intros H. now rewrite IH.
 Qed.
 
